@@ -44,6 +44,15 @@ CORPUS_GEN = r'''
 (def errf (fiber/new (fn [] (error "boom")) :e)) (resume errf) (add "fiber-error" errf)
 (def envf (fiber/new (fn [] (setdyn :x 1) (yield 1) (dyn :x)) :yp)) (resume envf) (add "fiber-env" envf)
 (var captured 10) (def capf (fiber/new (fn [] (forever (yield (++ captured)))))) (resume capf) (add "fiber-closure-env" [capf (fn [] captured)])
+(def holder @[])
+(def ff (fiber/new (fn [] (var local 1) (array/push holder (fn [] (++ local))) (yield 1) (yield local) local)))
+(resume ff)
+(add "fiber-frame-closure" [ff (holder 0)])
+(add "closure-then-its-fiber" [(holder 0) ff])
+(def holder2 @[])
+(def ff2 (fiber/new (fn [a] (def inner (fiber/new (fn [] (var z a) (array/push holder2 (fn [] z) (fn [v] (set z v))) (yield z) z))) (yield (resume inner)) (resume inner))))
+(resume ff2 5)
+(add "nested-fiber-frame-closures" @{:f ff2 :c holder2})
 (add "peg" (peg/compile ~{:main (* (<- :d+ :n) (any (* "," (-> :n) (<- :a))) (% (some (if-not "," 1)))) }))
 (add "peg2" (peg/compile ~(* (int 2) (lenprefix (number :d) "x") (cmt (<- 1) ,identity) (sub (to ";") (<- :w+)) (split "," :d))))
 (def ch (ev/chan 4)) (ev/give ch 1) (ev/give ch "two") (add "channel" ch)
@@ -78,8 +87,10 @@ DRIVER = r'''
     (fiber? v) (do (protect (fiber/status v)) (protect (fiber/last-value v)) (protect (fiber/getenv v)) (protect (debug/stack v))
                  (budget (fn [] (resume v 1))) (budget (fn [] (resume v))) (budget (fn [] (cancel v :x))))
     (= (type v) :core/peg) (do (protect (peg/match v "12,a,b;abc")) (protect (peg/match v "")) (protect (peg/find-all v "\x01\x02x;1,2")))
-    (= (type v) :core/channel) (do (protect (ev/count v)) (protect (ev/capacity v)) (protect (ev/full v)) (protect (ev/give v 1))
-                                 (protect (ev/select v)) (protect (ev/chan-close v)))
+    (= (type v) :core/channel) (do (protect (ev/count v)) (protect (ev/capacity v)) (protect (ev/full v))
+                                 # only operations that cannot park the driver: a give is issued only when there is room
+                                 (when (= false (first (protect (ev/full v)))) nil)
+                                 (protect (ev/chan-close v)) (protect (ev/take v)))
     (and (< depth 3) (or (indexed? v) (dictionary? v)))
     (do (var n 0) (each x v (when (< (++ n) 8) (exercise x (+ depth 1))))
       (when (dictionary? v) (var m 0) (eachk k v (when (< (++ m) 8) (exercise k (+ depth 1))))
@@ -100,9 +111,10 @@ DRIVER = r'''
         (if (r 0)
           (do (++ accepted) (when (= mode "exercise") (exercise (r 1) 0) (++ exercised)))
           (++ rejected))))
-    (when (= 0 (% i 64)) (gccollect))))
+    (when (= 0 (% i 16)) (gccollect))))
 (gccollect)
 (eprint "END accepted=" accepted " rejected=" rejected " exercised=" exercised)
+(os/exit 0)   # the installed signal handler would otherwise keep the event loop (and the process) alive
 '''
 
 SUBST = [0x00, 0x01, 0x7F, 0x80, 0xBF, 0xC0, 0xFF] + list(range(0xC8, 0xE9))
@@ -197,7 +209,7 @@ def run_inputs(ctx, exe, d, name, mode, lines, files_base):
     guard = 0
     while start < total and guard < 400:
         guard += 1
-        res = core.run([exe, drv, mode, inp, str(start)], timeout=600, cpu=60, mem_mb=None, tick=(signal.SIGALRM, 1.5, 0.1))
+        res = core.run([exe, drv, mode, inp, str(start)], timeout=150, cpu=60, mem_mb=None, tick=(signal.SIGALRM, 1.5, 0.1))
         err = res.err.decode(errors="replace")
         core.discard(res)
         last_b = -1
